@@ -51,6 +51,7 @@ type c16Case struct {
 	RotPos  uint64 `json:"rot_pos"`
 	// query
 	Mask    uint32     `json:"mask"`
+	Force   int        `json:"force,omitempty"` // 1: every string payload empty, 2: every string payload at its maximum
 	DB      string     `json:"-"`
 	SQL     string     `json:"-"`
 	Charset *[3]uint16 `json:"charset"`
@@ -453,6 +454,12 @@ func c16GenFDE(c *core.Ctx, i int) *c16Case {
 func c16QueryBody(r *core.Rng, cs *c16Case, dbLen, sqlLen int) {
 	sv := &ev.StatusVars{}
 	str := func(max int) string {
+		switch cs.Force {
+		case 1:
+			return ""
+		case 2:
+			return string(r.Bytes(max))
+		}
 		switch r.Intn(6) {
 		case 0:
 			return ""
@@ -472,7 +479,7 @@ func c16QueryBody(r *core.Rng, cs *c16Case, dbLen, sqlLen int) {
 			sv.SQLMode(r.U64())
 		case 6:
 			// servers 5.0.0-5.0.3 wrote the old Q_CATALOG (code 2, NUL terminated) in this place
-			if r.Chance(1, 4) {
+			if (cs.Force == 0 && r.Chance(1, 4)) || (cs.Force != 0 && cs.Index%2 == 1) {
 				sv.CatalogOld(str(255))
 			} else {
 				sv.CatalogNZ(str(255))
@@ -553,8 +560,12 @@ func c16SQLLen(r *core.Rng) int {
 }
 
 func c16GenQuery(c *core.Ctx, class string, i int, mask uint32, dbLen int) *c16Case {
+	return c16GenQueryForced(c, class, i, mask, dbLen, 0)
+}
+
+func c16GenQueryForced(c *core.Ctx, class string, i int, mask uint32, dbLen, force int) *c16Case {
 	r := c.Rng(core.StrID("c16"+class), uint64(i))
-	cs := &c16Case{Class: class, Index: i, Kind: "query", Type: ev.Query, Mask: mask}
+	cs := &c16Case{Class: class, Index: i, Kind: "query", Type: ev.Query, Mask: mask, Force: force}
 	c16Header(r, cs)
 	if dbLen < 0 {
 		switch r.Intn(5) {
@@ -676,6 +687,18 @@ func c16Classes(c *core.Ctx) []c16Class {
 	return []c16Class{
 		{"fde", 229 * 3 * 51, c16GenFDE},
 		qsub,
+		// every variable in turn as the last one written, behind a random subset of
+		// the earlier ones, its string payload (catalog in both forms, time zone,
+		// invoker) empty or at its maximum: the scanner's end-of-block arithmetic
+		{"query-last-var", 18 * 2 * 16, func(c *core.Ctx, i int) *c16Case {
+			r := c.Rng(core.StrID("c16lastmask"), uint64(i))
+			b := uint(i % 18)
+			mask := 1<<b | r.U32()&(1<<b-1)
+			if (i/36)%4 == 0 {
+				mask = 1 << b
+			}
+			return c16GenQueryForced(c, "query-last-var", i, mask, -1, 1+(i/18)%2)
+		}},
 		{"query-db", c.N(40000, 1800000), func(c *core.Ctx, i int) *c16Case {
 			r := c.Rng(core.StrID("c16dbmask"), uint64(i))
 			return c16GenQuery(c, "query-db", i, r.U32()&(1<<18-1), i%256)
@@ -709,7 +732,7 @@ func c16Nontrivial(cs *c16Case) bool {
 }
 
 func checkC16(c *core.Ctx) {
-	c.SetRule("one case = one event built by the independent encoder, decoded through both event wrappers in three forms (algorithm off + plain bytes, CRC32 + bytes with a real CRC and a length field that counts it, undefined + plain bytes) after StripChecksum; every header accessor (Timestamp, NextPosition, Type, ServerID, Length, Flags, all Is* predicates) and the body accessor of the class are compared with what was written. Classes: format descriptions (every table size 27..255 x algorithm {0,1,255} x server-version length 0..50, entries of unknown event types random); queries (status-variable subsets in server order with random payloads: quick 20 000 sampled incl. all singletons, all pairs with the charset, all co-singletons; thorough all 2^18; a second class cycling database lengths 0..255; SQL 0..64 KB incl. NUL and high bytes); rotate (name length 0..255 cycled x position classes incl. 2^32-1, 2^32, 2^63-1); intvar (ids 1, 2), rand, XID; generic events of every type byte 0..255 with random bodies for the predicates. Header fields mix all-zero, all-ones, sign-bit and random values. Distinct by (header fields, body bytes); non-trivial unless an empty query (no variables, no database, no SQL) or a rotate without a name")
+	c.SetRule("one case = one event built by the independent encoder, decoded through both event wrappers in three forms (algorithm off + plain bytes, CRC32 + bytes with a real CRC and a length field that counts it, undefined + plain bytes) after StripChecksum; every header accessor (Timestamp, NextPosition, Type, ServerID, Length, Flags, all Is* predicates) and the body accessor of the class are compared with what was written. Classes: format descriptions (every table size 27..255 x algorithm {0,1,255} x server-version length 0..50, entries of unknown event types random); queries (status-variable subsets in server order with random payloads: quick 20 000 sampled incl. all singletons, all pairs with the charset, all co-singletons; thorough all 2^18; a second class cycling database lengths 0..255; a third with every variable in turn as the last one written and all string payloads (catalog in both forms, time zone, invoker) empty or at their maximum; SQL 0..64 KB incl. NUL and high bytes); rotate (name length 0..255 cycled x position classes incl. 2^32-1, 2^32, 2^63-1); intvar (ids 1, 2), rand, XID; generic events of every type byte 0..255 with random bodies for the predicates. Header fields mix all-zero, all-ones, sign-bit and random values. Distinct by (header fields, body bytes); non-trivial unless an empty query (no variables, no database, no SQL) or a rotate without a name")
 	c.Assume("status variables are only emitted as a subset in the server's order 0,1,6,3,4,5,7,8,9,10,11,12,13,16,17,18,19,20; in a quarter of the cases the catalog is written in the old Q_CATALOG form (code 2, NUL terminated, 5.0.0-5.0.3) in place of Q_CATALOG_NZ")
 	c.Assume("a format description is decoded as received (it always ends with the algorithm byte and a CRC); server versions contain no NUL byte")
 	c.Assume("not demanded: classification of the pre-GA rows events v0 (types 20..22); checksum algorithms other than off, CRC32, undefined; IsPseudo")
